@@ -305,6 +305,9 @@ impl TransformExtensionList {
                 }
                 iter.next();
             } else if is_language_subtag(subtag) {
+                if text.tlang.is_some() {
+                    return Err(ParserError::InvalidSubtag);
+                }
                 text.tlang = Some(
                     LanguageIdentifier::try_from_iter(iter, true)
                         .map_err(|_| ParserError::InvalidLanguage)?,
